@@ -300,6 +300,8 @@ pub struct World {
     pub clean_calls: Vec<usize>,
     /// the action each running `clean()` call was issued for (parallel to `clean_calls`)
     pub clean_aids: Vec<usize>,
+    /// API call in which a finalizer last started a resurrecting pointer operation
+    pub fin_res_op_call: u64,
     /// handle-table indices borrowed by an API call in progress: callbacks must not consume them
     pub pinned: Vec<usize>,
     /// targets of the edges of objects dropped in the current call (released by drop glue)
@@ -458,6 +460,7 @@ impl World {
             collect_depth: 0,
             clean_calls: Vec::new(),
             clean_aids: Vec::new(),
+            fin_res_op_call: 0,
             pinned: Vec::new(),
             glue_targets: Vec::new(),
             ptr_ops_in_callbacks: false,
@@ -1417,6 +1420,21 @@ pub fn prim_collect() {
     let _g = G;
     let exec0 = state::executions_count().unwrap_or(0);
     let ev0 = w(|w| w.ev);
+    // C11: a collection that was started is counted, also when a callback unwinds it
+    struct Unwound(usize, u64, bool);
+    impl Drop for Unwound {
+        fn drop(&mut self) {
+            if std::thread::panicking() && !self.2 {
+                let exec1 = state::executions_count().unwrap_or(0);
+                let _ = try_w(|w| {
+                    if w.ev > self.1 && exec1 == self.0 && w.collect_depth == 1 {
+                        w.violation(&["C11"], "executions-count-step", "executions-count-missed/unwound".into(), format!("collect_cycles() ran {} callbacks and was unwound by a panic, executions_count still {}", w.ev - self.1, exec1), false);
+                    }
+                });
+            }
+        }
+    }
+    let _unwound = Unwound(exec0, ev0, nested);
     {
         struct C;
         impl Drop for C {
